@@ -27,6 +27,7 @@ const (
 	KFunc // closure / func value: Int-valued identity
 	KMap  // map value: Int-valued identity (only package-level tables are interpreted)
 	KUnit
+	KRecord // spec-level record (datatype declared in a .gvs file)
 )
 
 type Sort struct {
@@ -34,7 +35,9 @@ type Sort struct {
 	W      int
 	Signed bool
 	Go     types.Type // the Go type where known (needed for heap names, fields)
-	Elems  []*Sort    // tuple components
+	Elems  []*Sort    // tuple components / record field sorts
+	Name   string     // record name
+	Fields []string   // record field names
 }
 
 var (
@@ -216,6 +219,8 @@ func (tc *typeCtx) smt(s *Sort) string {
 		return "Iface"
 	case KUnit:
 		return "Bool"
+	case KRecord:
+		return "R_" + s.Name
 	}
 	panic(fmt.Sprintf("smt sort: kind %d", s.K))
 }
